@@ -178,6 +178,60 @@ def h_depth(ctx, depth):
         ctx.require(c.bits.to01() == x, 'depth: bits')
 
 
+def _pruned(mask, hashes, depths):
+    b = Builder(type_=1).store_uint(1, 8).store_uint(mask, 8)
+    for h in hashes:
+        b.store_bytes(h)
+    for d in depths:
+        b.store_uint(d, 16)
+    return b.end_cell()
+
+
+def h_depth_exotic(ctx, shape, twin=None):
+    """the depth limit also holds when the depth comes from the depths DECLARED in pruned branches (symbolic 16-bit values):
+    every cell built over them - directly, two levels up, next to a deep ordinary chain, at each significant level of a
+    two-level mask - is refused exactly when one of its per-level depths would exceed 1023"""
+    def build(fn):
+        try:
+            return fn(), False
+        except Exception:
+            return None, True
+    lim = 1023 if twin is None else 1022
+    if shape in ('direct', 'two_up', 'sibling'):
+        d = ctx.uint('d', 16)
+        pb = _pruned(1, [ctx.bytes_('h', 32)], [d])
+        ctx.require(pb.get_depth(0) == d, 'pruned branch: level-0 depth is the declared depth')
+        if shape == 'direct':
+            c, raised = build(lambda: Builder().store_bits(ctx.bitstr('x', 3)).store_ref(pb).end_cell())
+            want = d + 1
+        elif shape == 'two_up':
+            c, raised = build(lambda: Builder().store_ref(Builder().store_ref(pb).end_cell()).end_cell())
+            want = d + 2
+        else:
+            side = _chain(1000, None)
+            c, raised = build(lambda: Builder().store_ref(side).store_ref(pb).end_cell())
+            want = Ite(d > 1000, d, 1000) + 1
+        ctx.require(Iff(raised, want > lim), 'depth over a pruned branch: refused exactly above 1023')
+        if not raised:
+            ctx.require(c.get_depth(0) == want, 'depth over a pruned branch: reported level-0 depth')
+            ctx.require(c.get_depth(1) == (2 if shape == 'two_up' else (1001 if shape == 'sibling' else 1)), 'depth over a pruned branch: level-1 depth')
+    elif shape == 'mask3':
+        d0, d1 = ctx.uint('d0', 16), ctx.uint('d1', 16)
+        pb = _pruned(3, [ctx.bytes_('h0', 32), ctx.bytes_('h1', 32)], [d0, d1])
+        c, raised = build(lambda: Builder().store_ref(pb).end_cell())
+        ctx.require(Iff(raised, Or(d0 + 1 > lim, d1 + 1 > lim)), 'depth over a two-level pruned branch: refused exactly when a per-level depth exceeds 1023')
+        if not raised:
+            ctx.require(And(c.get_depth(0) == d0 + 1, c.get_depth(1) == d1 + 1, c.get_depth(2) == 1), 'depth over a two-level pruned branch: per-level depths')
+    elif shape == 'mask2_under_proof':
+        # an ordinary cell over a level-2 pruned branch, wrapped by a Merkle proof (which looks one level up)
+        d = ctx.uint('d', 16)
+        pb = _pruned(2, [ctx.bytes_('h', 32)], [d])
+        c, raised = build(lambda: Builder().store_ref(pb).end_cell())
+        ctx.require(Iff(raised, d + 1 > lim), 'depth over a level-2 pruned branch: refused exactly above 1023')
+        if not raised:
+            ctx.require(And(c.get_depth(0) == d + 1, c.get_depth(1) == d + 1, c.get_depth(2) == 1), 'depth over a level-2 pruned branch: per-level depths')
+
+
 READS = {
     'uint': lambda s, n: s.load_uint(n),
     'int': lambda s, n: s.load_int(n),
@@ -365,6 +419,8 @@ def instances(tier, seed):
         yield 'h_snake_capacity', dict(fill_bytes=fb, prerefs=pr, n=n)
     for d in (1, 2, 1022, 1023, 1024) if tier == 'thorough' else (1, 1023, 1024):
         yield 'h_depth', dict(depth=d)
+    for shape in ('direct', 'two_up', 'sibling', 'mask3', 'mask2_under_proof'):
+        yield 'h_depth_exotic', dict(shape=shape)
     # reads
     rs = (0, 1, 7, 8, 9, 64, 256, 257, 1022, 1023) if tier == 'quick' else (0, 1, 2, 7, 8, 9, 15, 16, 17, 63, 64, 65, 255, 256, 257, 511, 1000, 1022, 1023)
     for kind in READS:
@@ -398,6 +454,7 @@ def instances(tier, seed):
 def twins(tier, seed):
     yield 'h_store_at_fill', dict(fill=1016, type_='u8', twin='cap1024')     # wrong oracle: capacity 1024
     yield 'h_read', dict(kind='uint', r=8, n=9, twin='r+1')                    # wrong oracle: one more bit remains
+    yield 'h_depth_exotic', dict(shape='direct', twin='limit 1022')             # wrong oracle: depth limit 1022
 
 
 BOUNDS = {
@@ -405,7 +462,8 @@ BOUNDS = {
               'for u1,u8,i257,bits9,bytes1), all values of the stored operand and of the pre-filled bits',
     'value ranges': 'operands ranging over width+2 bits (so both in- and out-of-range values), widths at the boundaries',
     'references': '0..4 pre-stored references x every reference-adding operation',
-    'depth': 'chains of depth 1022/1023/1024 (contents concrete except the top cell)',
+    'depth': 'chains of depth 1022/1023/1024 (contents concrete except the top cell); cells built over pruned branches whose DECLARED '
+             'depths are symbolic 16-bit values (directly, two levels up, next to a chain of depth 1000, masks 1, 2 and 3)',
     'reads': 'remaining lengths r and read lengths n at the boundaries; n fully symbolic over 6 (quick) / 10 (thorough) bits in h_read_sym',
 }
 OUTSIDE = ['operation sequences longer than: prefill + references + one operation', 'negative read lengths',
